@@ -46,10 +46,12 @@ func (h hStartAccounts) SyncCommitteeAccountsForEpochByIndex(_ context.Context, 
 	return h.one(), nil
 }
 
-type hNoAttDuties struct{}
+// one attester duty per epoch asked for: validator 7 in the epoch's last slot
+type hLastSlotAttDuties struct{ spe uint64 }
 
-func (hNoAttDuties) AttesterDuties(_ context.Context, _ *api.AttesterDutiesOpts) (*api.Response[[]*apiv1.AttesterDuty], error) {
-	return &api.Response[[]*apiv1.AttesterDuty]{Data: nil, Metadata: map[string]any{}}, nil
+func (h hLastSlotAttDuties) AttesterDuties(_ context.Context, opts *api.AttesterDutiesOpts) (*api.Response[[]*apiv1.AttesterDuty], error) {
+	d := &apiv1.AttesterDuty{Slot: phase0.Slot((uint64(opts.Epoch)+1)*h.spe - 1), ValidatorIndex: 7, CommitteeIndex: 1, CommitteeLength: 8, CommitteesAtSlot: 4, ValidatorCommitteeIndex: 2}
+	return &api.Response[[]*apiv1.AttesterDuty]{Data: []*apiv1.AttesterDuty{d}, Metadata: map[string]any{}}, nil
 }
 
 // VerifC15_StartupCoverage: Vouch is started at any slot of any epoch of a sync
@@ -88,7 +90,7 @@ func c15Startup(period uint64) {
 		WithSpecProvider(spec),
 		WithChainTimeService(ct),
 		WithProposerDutiesProvider(&hPropDuties{}),
-		WithAttesterDutiesProvider(hNoAttDuties{}),
+		WithAttesterDutiesProvider(hLastSlotAttDuties{spe: spe}),
 		WithSyncCommitteeDutiesProvider(&hSyncDuties{duties: []*apiv1.SyncCommitteeDuty{{ValidatorIndex: 7, ValidatorSyncCommitteeIndices: []phase0.CommitteeIndex{3}}}}),
 		WithEventsProvider(mock.NewEventsProvider()),
 		WithValidatingAccountsProvider(hStartAccounts{}),
@@ -111,6 +113,17 @@ func c15Startup(period uint64) {
 		return
 	}
 	vnd.Quiesce()
+	// start-up sets up the attestation jobs of the rest of this epoch and of the
+	// next one (C03): the duty of the last slot of each, unless that is the slot
+	// Vouch was started in
+	for _, e := range []uint64{startEpoch, startEpoch + 1} {
+		last := (e+1)*spe - 1
+		want := 1
+		if last <= startSlot {
+			want = 0
+		}
+		vnd.Assert(sched.Count(fmt.Sprintf("Attestations for slot %d", last)) == want, "C03.startup.attestation-jobs-for-the-future-duties-of-this-and-the-next-epoch")
+	}
 	var tick func(context.Context)
 	for _, j := range sched.Periodic {
 		if j.Name == "Epoch ticker" {
